@@ -19,6 +19,17 @@ CLAIMED = {
         "is hand-modelled and tied by correspondence only.",
    tech="Coq proof (induction over strings and tables) + translator-regenerated tables + differential correspondence",
    ref="6 C02"),
+ "C04": dict(
+   text="Machine-checked theorems: the content pieces of any rendering are, in document order, exactly the tree's leaves "
+        "with every HTML()/_repr_html_ leaf and every text directly inside script/style verbatim and every other "
+        "plain text escaped exactly once (all paths: single-child fast path, sibling loop, any position, any "
+        "indent/eol); HTML() attribute values are written verbatim; for every + expression over str/HTML()/other "
+        "objects (any grouping and length, +, += and reflected +) the value renders as the operands rendered as "
+        "adjacent children and is HTML() iff some operand is. Tied to the code by differential execution of real "
+        "Python +/+=/operator.add expressions and random trees, with a byte-for-byte containment oracle.",
+   note=TB + "UserString methods other than + (join, format, %) are outside the statement and not checked.",
+   tech="Coq proof (induction over trees, sibling lists and expression trees) + differential correspondence",
+   ref="6 C04"),
  "C05": dict(
    text="Machine-checked theorems over the renderer model: an inline-only tag renders as indentation plus the exact "
         "concatenation of its open tags, content and close tags for every indent/eol; an inline-only list renders "
@@ -50,6 +61,19 @@ CLAIMED = {
         "dependency collection itself is C10's subject.",
    tech="Coq proof by structural induction over the renderer model + differential correspondence",
    ref="6 C07"),
+ "C09": dict(
+   text="Machine-checked theorems: the backwards index loop with slice assignment of TagList.tagify equals flat_map of "
+        "the per-child expansion for every list, position, multiplicity and empty expansion; the fuelled model of "
+        "Tag/TagList.tagify equals in-place substitution of expansions at every depth; tagify is the identity on "
+        "trees without objects and a fixed point when expansions are expanded; a tree with an un-expanded, non "
+        "self-rendering object at any rendered position yields the error and nothing else, and a tree without one "
+        "always renders. Tied to the code by differential execution (structure of tagify() results, markup, "
+        "RuntimeError) with custom classes returning TagList/Tag/str/HTML/metadata, and a substitution oracle "
+        "including reported dependencies and HTMLDocument.render().",
+   note=TB + "An object's tagify() is an oracle in the model (its returned node list); its contract (returns tagified "
+        "content) is a hypothesis of the fixed-point theorem only.",
+   tech="Coq proof (list-index arithmetic by rev_ind, structural induction, fuel elimination) + differential correspondence",
+   ref="6 C09"),
  "C19": dict(
    text="Finite theorems decided by kernel computation over tables regenerated from tags.py, svg.py, __init__.py "
         "and scripts/generate_tags.py on every run (all 113+66 wrappers have the exact pass-through shape, own "
